@@ -85,7 +85,9 @@ func runJobs(c *Ctx, par int, jobs []func(*jobOut)) {
 // ---------------------------------------------------------------------------------------------
 // generators for access structures with arbitrary IDs
 
-func genIDs(r *Rng, n int) []ID {
+// genIDs draws n distinct non-zero IDs: consecutive, small sparse, medium sparse, > 2^32, or extreme;
+// maxID > 0 caps them (families whose constructors restrict the ID range). The order is shuffled.
+func genIDs(r *Rng, n int, maxID uint64) []ID {
 	seen := map[ID]bool{}
 	var out []ID
 	mode := r.IntN(5)
@@ -110,6 +112,9 @@ func genIDs(r *Rng, n int) []ID {
 				id = ID(r.Uint64())
 			}
 		}
+		if maxID > 0 && uint64(id) > maxID {
+			id = ID(1 + uint64(id)%maxID)
+		}
 		if id == 0 || seen[id] {
 			continue
 		}
@@ -120,9 +125,25 @@ func genIDs(r *Rng, n int) []ID {
 	return out
 }
 
-// genSpec draws an access structure spec of the given family over n holders with the given IDs.
-func genSpec(r *Rng, family string, ids []ID) string {
-	n := len(ids)
+// c03CNFMaxID: cnf.InducedMSP panics for shareholder IDs > 64 (bitset "element out of range"; the C02
+// candidate defect). Quick-tier generators keep CNF IDs ≤ 64 so that the rest of the property is
+// exercised; the thorough tier lifts the cap and reports the panic under the stable key
+// `cnf-id-above-64-panic`.
+const c03CNFMaxID = 64
+
+// genSpec draws an access structure of the given family over n holders.
+func genSpec(r *Rng, family string, n int, capCNF bool) string {
+	var ids []ID
+	switch {
+	case family == "cnf" && capCNF:
+		ids = genIDs(r, n, c03CNFMaxID)
+	case family == "hier":
+		// hierarchical.CheckConstraints: IDs of later levels exceed those of earlier levels and
+		// N^((k-1)(k-2)/2) must stay below the field order
+		ids = sortedIDs(genIDs(r, n, 1<<20))
+	default:
+		ids = genIDs(r, n, 0)
+	}
 	s := func(xs []ID) string { return idsStr(xs) }
 	switch family {
 	case "th":
@@ -159,9 +180,6 @@ func genSpec(r *Rng, family string, ids []ID) string {
 			}
 		}
 	case "hier":
-		if n < 3 {
-			return fmt.Sprintf("hier:1:%s", s(ids))
-		}
 		cut := 1 + r.IntN(n-1)
 		t1 := 1 + r.IntN(cut)
 		t2 := t1 + 1 + r.IntN(n-t1)
@@ -197,6 +215,21 @@ func genSpec(r *Rng, family string, ids []ID) string {
 		return fmt.Sprintf("bool:th%d(%s)", t, strings.Join(ls, ","))
 	}
 	panic("genSpec: family " + family)
+}
+
+func cnfHasLargeID(spec string) bool {
+	if !strings.HasPrefix(spec, "cnf:") {
+		return false
+	}
+	for _, part := range strings.Split(spec[4:], "|") {
+		ids, _ := parseIDs(part)
+		for _, id := range ids {
+			if id > c03CNFMaxID {
+				return true
+			}
+		}
+	}
+	return false
 }
 
 var accessFamilies = []string{"th", "un", "cnf", "hier", "bool"}
@@ -282,9 +315,13 @@ func c03Case[P curves.Point[P, F, S], F algebra.FiniteFieldElement[F], S algebra
 		cls := res.Net.StatusStr()
 		// a constructor that refuses the configuration with an ordinary error is not a property
 		// failure (the property speaks about runs that the library accepts to start)
-		if res.Net.FailedRound == 0 || (len(res.Net.RoundStatus) == 1 && !strings.Contains(cls, "panic")) {
-			o.Note("constructor refused " + tag + " " + cls)
-			o.Count("constructor-refused." + proto + "." + fam)
+		if res.Net.Refused() {
+			o.Note("configuration refused " + tag + " " + cls)
+			o.Count("refused." + proto + "." + fam)
+			return
+		}
+		if cnfHasLargeID(spec) && strings.Contains(cls, "panic") && res.Net.FailedRound <= 1 {
+			o.Violation(prop, "cnf-id-above-64-panic "+tag+" status="+cls)
 			return
 		}
 		o.Violation(prop, "honest-run-failed "+tag+" status="+cls+" "+res.Net.statusSummary())
@@ -457,10 +494,10 @@ func runC03(c *Ctx) {
 		for _, proto := range protos {
 			for _, fam := range families {
 				n := nMin + r.IntN(nMax-nMin+1)
-				if fam == "bool" && n < 3 {
+				if (fam == "bool" || fam == "hier") && n < 3 {
 					n = 3
 				}
-				spec := genSpec(r, fam, genIDs(r, n))
+				spec := genSpec(r, fam, n, !c.Thorough())
 				jobs = append(jobs, mk(stream, proto, spec))
 				stream++
 			}
